@@ -335,6 +335,31 @@ def matchSeq (t : Table) (seq : List Nat) (mask : Option (List Bool)) : Except E
     | .error e => .error e
     | .ok qm => .ok (matchKmers t qk qm)
 
+/-- `match(sequence, similarity_rule, ignore_mask)` after k-mer decomposition, with the similarity rule
+as a parameter: `sim q` lists the k-mers the rule declares similar to `q` (the exact match is
+`sim q = [q]`).  Masked query positions are skipped *before* the rule is consulted. -/
+def matchKmersSim (sim : Nat → List Nat) (t : Table) (qk : List Nat) (qm : List Bool) :
+    List (Nat × Nat × Nat) :=
+  ((zipIdx qk).zip qm).flatMap fun ((i, q), m) =>
+    if m then (sim q).flatMap fun q' => (lookup t q').map (fun e => (i, e.ref, e.pos)) else []
+
+def matchSeqSim (sim : Nat → List Nat) (t : Table) (seq : List Nat) (mask : Option (List Bool)) :
+    Except Err (List (Nat × Nat × Nat)) :=
+  if seq.length < t.alph.k then .error .valueError else
+  match createKmers t.alph seq with
+  | .error e => .error e
+  | .ok qk => match prepareMask t.alph mask seq.length with
+    | .error e => .error e
+    | .ok qm => .ok (matchKmersSim sim t qk qm)
+
+/-- `self.match_table(other, similarity_rule)`: every entry of the other table against the entries
+of this table whose k-mer is similar to it. -/
+def matchTableSim (sim : Nat → List Nat) (t o : Table) : Except Err (List (Nat × Nat × Nat × Nat)) :=
+  if t.alph ≠ o.alph then .error .valueError
+  else if t.bucketed && t.nb ≠ o.nb then .error .valueError
+  else .ok ((List.range o.nb).flatMap fun b => (slotEntries o.slots b).flatMap fun oe =>
+    (sim oe.kmer).flatMap fun q' => (lookup t q').map fun se => (oe.ref, oe.pos, se.ref, se.pos))
+
 /-- `match_kmer_selection(positions, kmers)`. -/
 def matchSelection (t : Table) (positions kmers : List Nat) : Except Err (List (Nat × Nat × Nat)) :=
   if ! checkBounds t.alph kmers then .error .alphabetError
@@ -416,6 +441,23 @@ def unpickleSlots (bucketed : Bool) : Nat → List Nat → List Nat → Slots
 def pickleRoundTrip (t : Table) : Table :=
   let (w, l) := pickleSlots t.bucketed t.slots
   { t with slots := unpickleSlots t.bucketed 0 w l }
+
+/-! ## ScoreThresholdRule (specification level: brute force over all k-mers) -/
+
+/-- digits of a k-mer code (`split`). -/
+def splitCode (n : Nat) : Nat → Nat → List Nat
+  | 0, _ => []
+  | k + 1, code => splitCode n k (code / n) ++ [code % n]
+
+/-- similarity score of two split k-mers under the row-major `n × n` matrix `mat`. -/
+def scoreOf (n : Nat) (mat : List Int) (a b : List Nat) : Int :=
+  (a.zip b).foldl (fun s xy => s + (mat[xy.1 * n + xy.2]?.getD 0)) 0
+
+/-- `ScoreThresholdRule(matrix, threshold).similar_kmers(kmer_alphabet, kmer)` as a set: all k-mers
+whose total substitution score with `q` reaches the threshold. -/
+def scoreSim (a : KAlph) (mat : List Int) (thr : Int) (q : Nat) : List Nat :=
+  (List.range a.size).filter fun q' =>
+    decide (scoreOf a.n mat (splitCode a.n a.k q) (splitCode a.n a.k q') ≥ thr)
 
 /-! ## Permutations -/
 
@@ -569,11 +611,6 @@ def syncmerSelect (n k s : Nat) (p : Perm) (offsets : List Int) (seq : List Nat)
       | _, .error e => .error e
   | .error e, _ => .error e
   | _, .error e => .error e
-
-/-- digits of a k-mer code (`split`). -/
-def splitCode (n : Nat) : Nat → Nat → List Nat
-  | 0, _ => []
-  | k + 1, code => splitCode n k (code / n) ++ [code % n]
 
 /-- `SyncmerSelector.select_from_kmers(kmers)` (also what `CachedSyncmerSelector` tabulates). -/
 def syncmerFromKmers (n k s : Nat) (p : Perm) (offsets : List Int) (kmers : List Nat) :
